@@ -126,6 +126,10 @@ func Bytes(n string, max int) []byte {
 	return out
 }
 
+// BigBytes is like Bytes for large buffers (held as an SMT array by the engine;
+// only the bytes the path reads are determined by a model, the rest are zero).
+func BigBytes(n string, max int) []byte { return Bytes(n, max) }
+
 // BytesN returns a byte slice of exactly k symbolic bytes.
 func BytesN(n string, k int) []byte {
 	load()
